@@ -528,9 +528,9 @@ def volterra_orientation(E, L):
        functions=['Stroh.solve', 'IsotropicVolterraDislocation.solve', 'VolterraDislocation.solve', 'VolterraDislocation.__find_transform'],
        clause='for accepted positive-definite stiffness tensors, Burgers vectors and orientations: the displacement jumps by exactly the Burgers vector across the cut and is continuous elsewhere, '
               'the stress is divergence-free, K is real symmetric positive-definite, results are covariant under rotating the whole problem and under giving the orientation by Miller indices, '
-              're-solving an object gives the fields of the new problem, and the anisotropic solution approaches the isotropic one as the anisotropy vanishes',
+              're-solving an object gives the fields of the new problem, the anisotropic solution approaches the isotropic one as the anisotropy vanishes, and the choice of length unit only scales displacement differences',
        rule='stiffness {cubic Cu, hexagonal Mg, orthorhombic, triclinic SPD} x Burgers {screw, edge, mixed} x orientations (6 rotations; Miller-index orientations in cubic, hexagonal prismatic/basal, '
-            'monoclinic cells) x m/n assignments x 12 field points; distinct by tuple; non-trivial = every case')
+            'monoclinic cells) x m/n assignments x 12 field points; {Stroh, isotropic} x 3 Burgers vectors x all lengths scaled by 1e-1, 1e-8, 1e-10, 1e7; distinct by tuple; non-trivial = every case')
 def solutions(tier, seed):
     from pyvc.native import atomman
     import numpy as np
@@ -663,6 +663,36 @@ def solutions(tier, seed):
             fails.append({'obligation': 'isotropic.limit', 'key': 'mu=0.7,lambda=1.3', 'input': 'isotropic', 'detail': '; '.join(msgs[:3])})
     except Exception as e:
         fails.append({'obligation': 'isotropic.limit', 'key': 'mu=0.7,lambda=1.3', 'input': 'isotropic', 'detail': 'raised %s: %s' % (type(e).__name__, e)})
+    # ---- the choice of length unit: the same dislocation with all lengths (Burgers vector, field points) multiplied by s has displacement x s and the same strain and stress
+    a0 = 3.6
+    for (sname, solver), (bname, bv) in itertools.product({'Stroh': lambda b_: am.defect.Stroh(Cs['cubic'], burgers=b_, transform=rot(3)),
+                                                           'isotropic': lambda b_: am.defect.IsotropicVolterraDislocation(am.ElasticConstants(mu=0.7, **{'lambda': 1.3}), burgers=b_, transform=rot(3))}.items(),
+                                                          {'edge': a0 / 2 * np.array([1.0, -1.0, 0.0]), 'partial': a0 / 6 * np.array([1.0, 1.0, -2.0]), 'mixed': np.array([2.5, 0.011, -0.74])}.items()):
+        try:
+            ref = solver(bv)
+            for s_ in (1e-1, 1e-8, 1e-10, 1e7):
+                evals += 1
+                sc = solver(bv * s_)
+                msgs = []
+                # (the displacement itself is defined up to a rigid translation that depends on the unit through log r: differences between points are compared)
+                du_s = sc.displacement(pts[0] * s_) - sc.displacement(pts[1] * s_)
+                du_r = (ref.displacement(pts[0]) - ref.displacement(pts[1])) * s_
+                if not np.allclose(du_s, du_r, rtol=1e-7, atol=1e-9 * s_ * abs(bv).max()):
+                    msgs.append('displacement difference between two scaled points is %r, expected %r' % (du_s.tolist(), du_r.tolist()))
+                for P in pts[:3]:
+                    if not np.allclose(sc.strain(P * s_), ref.strain(P), rtol=1e-7, atol=1e-9 * abs(ref.strain(P)).max()):
+                        msgs.append('strain changes with the length unit: %r vs %r' % (sc.strain(P * s_).round(6).tolist(), ref.strain(P).round(6).tolist()))
+                        break
+                    if not np.allclose(sc.stress(P * s_), ref.stress(P), rtol=1e-7, atol=1e-9 * abs(ref.stress(P)).max()):
+                        msgs.append('stress changes with the length unit')
+                        break
+                if not np.allclose(sc.burgers, ref.burgers * s_, rtol=1e-9, atol=0):
+                    msgs.append('Burgers vector used %r, given %r (in the solution frame)' % (sc.burgers.tolist(), (ref.burgers * s_).tolist()))
+                if msgs:
+                    fails.append({'obligation': 'solutions.length_unit', 'key': '%s,%s,scale=%g' % (sname, bname, s_), 'input': {'burgers': (bv * s_).tolist()},
+                                  'detail': '%s solution, %s Burgers vector, all lengths x %g: %s' % (sname, bname, s_, '; '.join(msgs[:2]))})
+        except Exception as e:
+            fails.append({'obligation': 'solutions.length_unit', 'key': '%s,%s' % (sname, bname), 'input': {'burgers': bv.tolist()}, 'detail': 'raised %s: %s' % (type(e).__name__, e)})
     files = {rel: hashlib.sha256(open(os.path.join(REPO, rel), 'rb').read()).hexdigest() for rel in (STROH, ISO, VOLT, SOLVE)}
     return {'family': 'Volterra solutions (%d of the cases refused by the solver: degenerate roots)' % refused, 'evaluations': evals, 'distinct_nontrivial': evals - refused, 'rule': 'see group rule', 'samples': samples, 'failures': fails[:12], 'files': files}
 
